@@ -633,6 +633,9 @@ class Interp:
 
     def do_yield(self, v, node=None):
         self.ctx.yields.append(v)
+        hook = getattr(self.pack, "on_yield", None)
+        if hook is not None and self.depth == 0:
+            hook(self, v)
         c = self.contract
         if c is not None and c.closes and self.depth == 0:
             if self.ctx.choose(2, "close@yield%d" % len(self.ctx.yields)) == 1:
@@ -1397,7 +1400,7 @@ class Interp:
                 elif isinstance(n, ast.NamedExpr):
                     tgt(n.target)
                 elif isinstance(n, ast.Call) and isinstance(n.func, ast.Attribute) and n.func.attr in (
-                        "append", "extend", "pop", "add", "remove", "update", "clear", "sort", "insert", "popleft", "discard"):
+                        "append", "extend", "pop", "add", "remove", "update", "clear", "sort", "insert", "popleft", "discard", "put", "get"):
                     tgt(n.func.value)
         return names, attrs
 
